@@ -212,8 +212,8 @@ def run(ctx):
         ctx.model_violation("GenCLex", r)
     cases = runner.sharded_tlc(ctx, "GenCLex", CFG.format(profile="chars", maxlen=maxlen, shard="@SHARD@", nshards="@NSHARDS@"),
                                16, "GenCLex_chars", timeout=3000)
-    sim = runner.sharded_tlc(ctx, "GenCLex", CFG.format(profile="toks", maxlen=14, shard="@SHARD@", nshards=1), 16,
-                             "GenCLex_toks", timeout=900, simulate=f"num={400 if q else 6000}", depth=16, seed=ctx.seed + 9)
+    sim = runner.sharded_tlc(ctx, "GenCLex", CFG.format(profile="toks", maxlen=14, shard=0, nshards=1), 16,
+                             "GenCLex_toks", timeout=900, simulate=f"num={50 if q else 800}", depth=16, seed=ctx.seed + 9)
     seen = set()
     allc = []
     for c in cases + sim + tcases:
